@@ -46,6 +46,11 @@ int libwifi_parse_disassoc(struct libwifi_parsed_disassoc *disassoc, struct libw
         return -EINVAL;
     }
 
+    // The reason code must be present
+    if (frame->len < (frame->header_len + sizeof(struct libwifi_disassoc_fixed_parameters))) {
+        return -EINVAL;
+    }
+
     disassoc->ordered = frame->frame_control.flags.ordered;
 
     if (disassoc->ordered) {
@@ -65,8 +70,15 @@ int libwifi_parse_disassoc(struct libwifi_parsed_disassoc *disassoc, struct libw
     memcpy(&disassoc->fixed_parameters, body, sizeof(struct libwifi_disassoc_fixed_parameters));
     body += sizeof(struct libwifi_disassoc_fixed_parameters);
 
-    memcpy(&disassoc->tags, body, tags_len);
-    body += tags_len;
+    // Copy whatever tagged parameters follow the reason code
+    if (tags_len > 0) {
+        disassoc->tags.parameters = malloc(tags_len);
+        if (disassoc->tags.parameters == NULL) {
+            return -ENOMEM;
+        }
+        memcpy(disassoc->tags.parameters, body, tags_len);
+        disassoc->tags.length = tags_len;
+    }
 
     return 0;
 }
